@@ -30,10 +30,15 @@ Pats == [ pa    |-> <<L("a")>>,                       \* /a
           pxb   |-> <<B("one", "x"), L("b")>>,        \* /<x>/b
           pax   |-> <<L("a"), B("one", "x")>>,        \* /a/<x>
           prest |-> <<B("many0", "r")>>,              \* /<r*>
-          paopt |-> <<L("a"), B("opt", "o")>> ]       \* /a/<o?>
+          paopt |-> <<L("a"), B("opt", "o")>>,        \* /a/<o?>
+          paB   |-> <<L("a")>>,                       \* /a/    (branch route: pattern ends with a slash)
+          pabB  |-> <<L("a"), L("b")>> ]              \* /a/b/
+PBranch(p) == p \in {"paB", "pabB"}
 
 Paths == [ a |-> <<"a">>, b |-> <<"b">>, ab |-> <<"a", "b">>, cb |-> <<"c", "b">>,
-           ac |-> <<"a", "c">>, abc |-> <<"a", "b", "c">>, root |-> <<>> ]
+           ac |-> <<"a", "c">>, abc |-> <<"a", "b", "c">>, root |-> <<>>,
+           aT |-> <<"a">>, abT |-> <<"a", "b">> ]            \* /a/ and /a/b/ (requests WITH a trailing slash)
+PTrail(p) == p \in {"aT", "abT"}
 
 MSets == [ any |-> {}, get |-> {"GET", "HEAD"}, post |-> {"POST"}, getpost |-> {"GET", "HEAD", "POST"},
            put |-> {"PUT"} ]
@@ -54,6 +59,10 @@ RouteTypes == [pat : PatIds, ms : MethodSets, beh : Behs]
 \* so that the same operators serve the catalogue model and recorded traces with arbitrary patterns
 PathMatches(r, q) == Matches(r.patv, q.pathv)
 Admits(r, q) == r.msv = {} \/ Upper(q.method) \in r.msv
+\* default slash mode ("redirect"; the other modes are C07's Slash.tla): a branch route that WOULD EXECUTE a request
+\* whose path lacks the trailing slash answers with a redirect instead - after the method check, so a branch route that
+\* does not admit the method is skipped like any other.  Leaf routes take both forms of the path.
+Redirects(r, q) == r.trail /\ ~q.trail /\ q.pathv # <<>>
 
 (************************* declarative property ****************************)
 \* indices of routes that get executed, in order: every route that matches path and method,
@@ -62,7 +71,8 @@ RECURSIVE ExecFrom(_, _, _)
 ExecFrom(t, q, i) ==
     IF i > Len(t) THEN <<>>
     ELSE IF PathMatches(t[i], q) /\ Admits(t[i], q)
-         THEN IF NonBreaking(t[i].beh) THEN <<i>> \o ExecFrom(t, q, i + 1) ELSE <<i>>
+         THEN IF Redirects(t[i], q) THEN <<i>>                 \* reached, not executed: the redirect ends the loop
+              ELSE IF NonBreaking(t[i].beh) THEN <<i>> \o ExecFrom(t, q, i + 1) ELSE <<i>>
          ELSE ExecFrom(t, q, i + 1)
 
 NoneId == 0
@@ -70,7 +80,9 @@ Answer(t, q) ==
     LET ex == ExecFrom(t, q, 1)
         last == IF ex = <<>> THEN 0 ELSE ex[Len(ex)]
         pathMatching == {i \in 1..Len(t) : PathMatches(t[i], q)}
-    IN IF last # 0
+    IN IF last # 0 /\ Redirects(t[last], q)
+       THEN [status |-> 302, by |-> NoneId, exec |-> [k \in 1..(Len(ex) - 1) |-> t[ex[k]].id], allow |-> {}]
+       ELSE IF last # 0
        THEN \* either the first breaking route answered, or every executed route was non-breaking
             \* and the most recent non-breaking error becomes the response
             [status |-> StatusOf(t[last].beh), by |-> IF HasMarker(t[last].beh) THEN t[last].id ELSE NoneId,
@@ -96,7 +108,7 @@ NoRet == [status |-> 0, by |-> NoneId]
 
 InsertAt(s, idx, e) == SubSeq(s, 1, idx) \o <<e>> \o SubSeq(s, idx + 1, Len(s))
 
-Init == /\ table = <<>> /\ hist = <<>> /\ req = [path |-> "-", pathv |-> <<>>, method |-> "-"] /\ pc = "build"
+Init == /\ table = <<>> /\ hist = <<>> /\ req = [path |-> "-", pathv |-> <<>>, method |-> "-", trail |-> FALSE] /\ pc = "build"
         /\ i = 1 /\ excs = <<>> /\ allowed = {} /\ exec = <<>> /\ ret = NoRet
 
 \* app.add(route, index=idx); idx = Len(table) is plain append
@@ -104,7 +116,8 @@ Add(rt, idx) ==
     /\ pc = "build" /\ Len(table) < MaxRoutes
     /\ LET id == Len(table) + 1
        IN /\ table' = InsertAt(table, idx, [id |-> id, pat |-> rt.pat, patv |-> Pats[rt.pat],
-                                            ms |-> rt.ms, msv |-> MSets[rt.ms], beh |-> rt.beh])
+                                            ms |-> rt.ms, msv |-> MSets[rt.ms], beh |-> rt.beh,
+                                            trail |-> PBranch(rt.pat)])
           /\ hist' = Append(hist, [id |-> id, idx |-> idx])
     /\ UNCHANGED <<req, pc, i, excs, allowed, exec, ret>>
 
@@ -126,9 +139,18 @@ SkipMethod ==
     /\ i' = i + 1
     /\ UNCHANGED <<table, hist, req, pc, excs, exec, ret>>
 
+\* `if route.is_branch: ... if norm_path != url_path: if route.slash_mode == S_REDIRECT: return redirect(...)`
+SlashRedirect ==
+    /\ pc = "loop" /\ i <= Len(table) /\ PathMatches(table[i], req) /\ Admits(table[i], req)
+    /\ Redirects(table[i], req)
+    /\ ret' = [status |-> 302, by |-> NoneId]
+    /\ pc' = "done"
+    /\ UNCHANGED <<table, hist, req, i, excs, allowed, exec>>
+
 \* route.execute(...) ; breaking results end the loop
 ExecuteBreaking ==
     /\ pc = "loop" /\ i <= Len(table) /\ PathMatches(table[i], req) /\ Admits(table[i], req)
+    /\ ~Redirects(table[i], req)
     /\ ~NonBreaking(table[i].beh)
     /\ exec' = Append(exec, table[i].id)
     /\ ret' = [status |-> StatusOf(table[i].beh),
@@ -139,6 +161,7 @@ ExecuteBreaking ==
 \* non-breaking HTTPException: dispatch_state.add_exception(ret); continue
 ExecuteNonBreaking ==
     /\ pc = "loop" /\ i <= Len(table) /\ PathMatches(table[i], req) /\ Admits(table[i], req)
+    /\ ~Redirects(table[i], req)
     /\ NonBreaking(table[i].beh)
     /\ exec' = Append(exec, table[i].id)
     /\ excs' = Append(excs, [status |-> StatusOf(table[i].beh), by |-> table[i].id])
@@ -155,8 +178,8 @@ NullRoute ==
     /\ UNCHANGED <<table, hist, req, i, excs, allowed, exec>>
 
 Next == \/ \E rt \in RouteTypes : \E idx \in 0..Len(table) : Add(rt, idx)
-        \/ \E p \in ReqPaths, m \in ReqMethods : Request([path |-> p, pathv |-> Paths[p], method |-> m])
-        \/ SkipNoPath \/ SkipMethod \/ ExecuteBreaking \/ ExecuteNonBreaking \/ NullRoute
+        \/ \E p \in ReqPaths, m \in ReqMethods : Request([path |-> p, pathv |-> Paths[p], method |-> m, trail |-> PTrail(p)])
+        \/ SkipNoPath \/ SkipMethod \/ SlashRedirect \/ ExecuteBreaking \/ ExecuteNonBreaking \/ NullRoute
 
 Spec == Init /\ [][Next]_vars
 
@@ -172,14 +195,22 @@ LoopIsAnswer ==
         /\ ret.status = a.status /\ ret.by = a.by /\ exec = a.exec
         /\ (a.status = 405 /\ excs = <<>> => allowed = a.allow)
 
+\* a redirect is only ever issued on behalf of a route that admits the method, and nothing runs after it
+RedirectOnlyIfAdmitted ==
+    pc = "done" /\ ret.status = 302 =>
+      \E k \in 1..Len(table) : /\ PathMatches(table[k], req) /\ Admits(table[k], req) /\ Redirects(table[k], req)
+                                /\ \A j \in 1..(k - 1) : ~(PathMatches(table[j], req) /\ Admits(table[j], req)
+                                                            /\ (~NonBreaking(table[j].beh) \/ Redirects(table[j], req)))
+
 \* first match in order: nothing after the answering route runs, nothing that matches is skipped
 FirstMatch ==
     pc = "done" =>
       \A k \in 1..Len(table) :
          LET earlierBreaker == \E j \in 1..(k - 1) : PathMatches(table[j], req) /\ Admits(table[j], req)
-                                                       /\ ~NonBreaking(table[j].beh)
+                                                       /\ (~NonBreaking(table[j].beh) \/ Redirects(table[j], req))
              ids == {exec[n] : n \in DOMAIN exec}
-         IN (table[k].id \in ids) <=> (PathMatches(table[k], req) /\ Admits(table[k], req) /\ ~earlierBreaker)
+         IN (table[k].id \in ids) <=> (PathMatches(table[k], req) /\ Admits(table[k], req) /\ ~Redirects(table[k], req)
+                                       /\ ~earlierBreaker)
 
 \* routes are never reordered: the table is exactly what the add() history describes
 RECURSIVE Replay(_, _)
@@ -196,7 +227,7 @@ TypeOK == pc \in {"build", "loop", "done"} /\ i \in 1..(MaxRoutes + 1)
 (****************************** emission ***********************************)
 \* one record per routing table: the add() history plus the declarative answer for EVERY request
 \* of the catalogue (the loop model above is checked equal to it by TLC)
-AllReqs == {[path |-> p, pathv |-> Paths[p], method |-> m] : p \in ReqPaths, m \in ReqMethods}
+AllReqs == {[path |-> p, pathv |-> Paths[p], method |-> m, trail |-> PTrail(p)] : p \in ReqPaths, m \in ReqMethods}
 ReqSeq == LET RECURSIVE ToSeq(_)
               ToSeq(S) == IF S = {} THEN <<>> ELSE LET x == CHOOSE y \in S : TRUE IN <<x>> \o ToSeq(S \ {x})
           IN ToSeq(AllReqs)
